@@ -310,6 +310,7 @@ package iavl
 //@   ensures [inner-takes-two] err == nil && exportNode.Height != 0 && old(n0) >= 2 && old(i.stack[n0 - 1].subtreeHeight) < exportNode.Height && old(i.stack[n0 - 2].subtreeHeight) < exportNode.Height ==> len(i.stack) == old(n0) - 1 && top != nil && top.subtreeHeight == exportNode.Height && top.leftNode == old(i.stack[n0 - 2]) && top.rightNode == old(i.stack[n0 - 1]) && top.key == exportNode.Key
 //@   ensures [inner-size] err == nil && exportNode.Height != 0 && old(n0) >= 2 && old(i.stack[n0 - 1].subtreeHeight) < exportNode.Height && old(i.stack[n0 - 2].subtreeHeight) < exportNode.Height && old(i.stack[n0 - 2]) != old(i.stack[n0 - 1]) ==> top.size == old(i.stack[n0 - 2].size) + old(i.stack[n0 - 1].size) || old(i.stack[n0 - 2].size) + old(i.stack[n0 - 1].size) > 9223372036854775807 || old(i.stack[n0 - 2].size) + old(i.stack[n0 - 1].size) < 0 - 9223372036854775808
 //@   ensures [node-version] err == nil ==> top != nil && top.nodeKey != nil && top.nodeKey.version == exportNode.Version
+//@   ensures [node-nonce] err == nil && old(i.nonces[exportNode.Version]) < 4294967294 ==> top.nodeKey.nonce == old(i.nonces[exportNode.Version]) + 2 && i.nonces[exportNode.Version] == old(i.nonces[exportNode.Version]) + 1
 //@   modifies *
 
 
@@ -859,8 +860,13 @@ package iavl
 //@   requires t != nil && t.root != nil && t.ndb != nil && valid(t.root)
 //@   ensures [built] err == nil ==> proof != nil
 //@   modifies *
+// the leaf op prefix is what a leaf hashes before its key: varint 0 (height), varint 1 (size), varint version
+//@ func convertVarIntToBytes(orig, buf) (r)
+//@   props C03
+//@   ensures [varint] r != nil && len(r) == vlen(orig) && isUvarintContent(ord(r), len(r), zigzag(orig))
 //@ func convertLeafOp(version) (op)
-//@   summary
+//@   props C03
+//@   ensures [prefix-length] op != nil && len(op.Prefix) == 2 + vlen(version)
 //@ func convertInnerOps(path) (ops)
 //@   summary
 
